@@ -77,9 +77,11 @@ def make_f5():
     return f5
 
 
-def extractor(name):
-    return {'base': [], 'pyd': [pex.PydanticSchemaExtractor()], 'doc': [dex.DocstringSchemaExtractor()],
-            'doc+pyd': [dex.DocstringSchemaExtractor(), pex.PydanticSchemaExtractor()]}[name]
+def extractor(name, user_extra=None):
+    """user_extra: a mapping of the user's, handed to the pydantic extractor as model configuration (json_schema_extra)"""
+    kw = {} if user_extra is None else {'json_schema_extra': user_extra}
+    return {'base': [], 'pyd': [pex.PydanticSchemaExtractor(**kw)], 'doc': [dex.DocstringSchemaExtractor()],
+            'doc+pyd': [dex.DocstringSchemaExtractor(), pex.PydanticSchemaExtractor(**kw)]}[name]
 
 
 def snapshot(objs):
@@ -159,7 +161,7 @@ def result_kind(doc, schema):
         return 'null'
     if s.get('type') == 'object' and 'x' in s.get('properties', {}):
         return 'model'
-    if not [k for k in s if k not in ('title', 'description')]:
+    if not [k for k in s if k not in ('title', 'description') and not k.startswith('x-')]:
         return 'any'
     return 'other'
 
@@ -355,8 +357,13 @@ def run(scn_wrap, docs_out):
             deferred = m        # this method (and the error class it raises) comes into being after the first generation
         else:
             build_method(m)
+    import zlib
+    user_extra = {'x-verif': ['the user owns this mapping']} if zlib.crc32(json.dumps(scn, sort_keys=True).encode()) % 2 else None
+    if user_extra is not None:
+        user_objs.append({'extractor_config': user_extra})
+
     def build_spec():
-        ex = extractor(scn['extractor'])
+        ex = extractor(scn['extractor'], user_extra)
         if is_rpc:
             return openrpc.OpenRPC(info=openrpc.Info(title='t', version='1'), schema_extractor=ex[0] if ex else None)
         return openapi.OpenAPI(info=openapi.Info(title='t', version='1'), openapi='3.1.0' if scn['kind'] == 'openapi31' else '3.0.3',
